@@ -1,5 +1,6 @@
 use vstd::prelude::*;
 verus! {
+global size_of usize == 8;
 
 const PACKAGE_ENCRYPTION_CHUNK_SIZE: usize = 4096;
 const PACKAGE_OFFSET: usize = 8;
@@ -25,6 +26,25 @@ pub open spec fn enc_seg(input: Seq<u8>, i: nat, bs: nat, salt: Seq<u8>, key: Se
 }
 pub open spec fn enc_segs(input: Seq<u8>, n: nat, bs: nat, salt: Seq<u8>, key: Seq<u8>) -> Seq<Seq<u8>> {
     Seq::new(n, |i: int| enc_seg(input, i as nat, bs, salt, key))
+}
+
+proof fn lemma_flat2(a: Seq<u8>, b: Seq<u8>)
+    ensures flat(seq![a, b]) == a + b
+{
+    let s2 = seq![a, b];
+    assert(s2.drop_last() =~= seq![a]);
+    assert(seq![a].drop_last() =~= Seq::<Seq<u8>>::empty());
+    assert(flat(seq![a]) =~= a) by { assert(flat(Seq::<Seq<u8>>::empty()) =~= Seq::<u8>::empty()); }
+    assert(flat(s2) =~= a + b);
+}
+
+proof fn lemma_flat2_all()
+    ensures forall|b: Seq<&[u8]>| b.len() == 2 ==> #[trigger] flat(views(b)) == b[0]@ + b[1]@
+{
+    assert forall|b: Seq<&[u8]>| b.len() == 2 implies #[trigger] flat(views(b)) == b[0]@ + b[1]@ by {
+        lemma_flat2(b[0]@, b[1]@);
+        assert(views(b) =~= seq![b[0]@, b[1]@]);
+    }
 }
 
 #[verifier::external_body]
@@ -94,10 +114,19 @@ fn crypt_package(
         let mut input_chunk = buffer_slice(input, start + offset, end + offset);
 
         let remainder = input_chunk.len() % block_size;
+        let ghost chunk0 = input_chunk@;
+        proof { assert(chunk0 == seg(input@, i as nat)); assert(chunk0.len() <= 4096); }
         if remainder > 0 {
             let buffer = buffer_alloc(0, block_size - remainder);
+            let ghost bufv = buffer@;
             input_chunk = buffer_concat(vec![&input_chunk, &buffer]);
+            proof {
+                lemma_flat2_all();
+                assert(input_chunk@ =~= chunk0 + bufv);
+                assert(input_chunk@ =~= pad(chunk0, 16));
+            }
         }
+        proof { assert(input_chunk@ =~= pad(chunk0, 16)); assert(input_chunk@.len() <= 4096); }
 
         let block_key_buffer = create_uint32_le_buffer(&(i as u32), None);
         let iv = create_iv(hash_algorithm, salt_value, block_size, &block_key_buffer);
@@ -117,7 +146,13 @@ fn crypt_package(
     }
 
     let output_chunks_as: Vec<_> = __outl_chunks_as(&output_chunks);
+    proof {
+        assert(i == nseg(input@.len()));
+        assert(views(output_chunks_as@) =~= enc_segs(input@, nseg(input@.len()), 16, salt_value@, key@));
+    }
     let mut output = buffer_concat(output_chunks_as);
+    let ghost body = output@;
+    proof { lemma_flat2_all(); }
 
     if *encrypt {
         let input_len = input.len();
